@@ -294,6 +294,8 @@ def _open(file, mode="r", *a, **k):
             inj = _emit("opensrc", file, None, outside_ok=True)
             if inj:
                 _raise(inj, file)
+            if "b" in mode:
+                return _SrcProxy(_real["open"](file, mode, *a, **k), file)
         return _real["open"](file, mode, *a, **k)
     if "+" in mode:
         kind = "openrw"
@@ -312,6 +314,35 @@ def _open(file, mode="r", *a, **k):
     if kind == "openw" and "b" in mode and os.sep + "tmp" + os.sep in os.path.abspath(os.fspath(file)) and r.split(os.sep)[0] in ("objects", "metadata"):
         return _ChunkProxy(f, file)      # a staging file written chunk by chunk without NamedTemporaryFile
     return f
+
+
+class _SrcProxy:
+    """The caller's data file, opened by the library for reading: every read is an event ("readsrc") that can carry an
+    injected failure (a source on a network file system that fails in mid-transfer).  Not an operation of the model:
+    the normaliser drops it; the fault search of C13 / C08 compares it with the failing write of the same buffer."""
+
+    def __init__(self, f, path):
+        object.__setattr__(self, "_f", f)
+        object.__setattr__(self, "_path", path)
+
+    def __enter__(self):
+        return self
+
+    def __exit__(self, *a):
+        self._f.close()
+        return False
+
+    def __iter__(self):
+        return iter(object.__getattribute__(self, "_f"))
+
+    def read(self, *a):
+        inj = _emit("readsrc", self._path, None, outside_ok=True)
+        if inj:
+            _raise(inj, self._path)
+        return self._f.read(*a)
+
+    def __getattr__(self, name):
+        return getattr(object.__getattribute__(self, "_f"), name)
 
 
 class _ChunkProxy:
